@@ -111,7 +111,18 @@ structure SAcc where
 
 def isClose : SOp → Bool
   | .pclose => true
+  | .pcloseY => true
   | _ => false
+
+/-- a pool `Close()` with a request arriving from inside the underlying `Close()` -/
+def isReClose : SOp → Bool
+  | .pcloseR _ => true
+  | _ => false
+
+/-- remove one occurrence of every id in `ids` -/
+def minus : List Nat → List Nat → List Nat
+  | l, [] => l
+  | l, x :: xs => minus (l.erase x) xs
 
 /-- a hand-over is acceptable: the request was waiting, it went to a sink, and no other sink is
     live (it went to the one connection).  Tolerated, because the property is silent about it
@@ -123,25 +134,36 @@ def fwdOk (op : SOp) (pend : List Nat) (sinks : List SinkView) (f : Nat × Nat) 
   (if f.2 = 0 then isClose op && liveN sinks == 0
    else decide (f.2 ≤ sinks.length) && othersClosed sinks (f.2 - 1))
 
+/-- the requests issued so far and not handed over, the one issued in this operation included -/
 def pendAfter (a : SAcc) (op : SOp) : List Nat :=
   match op with
   | .req r => a.pend ++ [r]
+  | .pcloseR r => a.pend ++ [r]
+  | .cresumeR _ r => a.pend ++ [r]
   | _ => a.pend
 
+/-- a request enters the pool in this operation -/
 def isReq : SOp → Bool
   | .req _ => true
+  | .pcloseR _ => true
+  | .cresumeR _ _ => true
   | _ => false
 
 def specSObs (a : SAcc) (idx : Nat) (op : SOp) (o : SObs) : Verdict :=
   let pend1 := pendAfter a op
-  let pend2 := pend1.filter (fun r => !(o.fwd.any (fun f => f.1 == r)))
+  let pend2 := minus pend1 (o.fwd.map (·.1))
+  -- the sinks that existed before this operation, as they are after it
+  let old := o.sinks.take a.prev.length
   -- at most one underlying connection at a time
   if liveN o.sinks > 1 then .fail "one-live" [V.ofNat idx, V.ofNat (liveN o.sinks)]
-  -- shares: no new connection while there is a live one
-  else if a.prev.length < o.sinks.length && liveN a.prev > 0 then
+  -- shares: no new connection while there is a live one.  (For a request arriving from inside the
+  -- pool's Close() the connection that was live before the operation may be the one that Close()
+  -- has closed by the time the request arrives: then no older connection is live any more.)
+  else if a.prev.length < o.sinks.length && liveN a.prev > 0 && (!isReClose op || liveN old > 0) then
     .fail "created-while-live" [V.ofNat idx, V.ofNat a.prev.length, V.ofNat o.sinks.length]
   -- replaces: a request finding no live connection creates and opens exactly one fresh sink
-  else if isReq op && liveN a.prev == 0 &&
+  -- (a request arriving from inside Close(): no older connection is live once Close() is through)
+  else if isReq op && (if isReClose op then liveN old == 0 else liveN a.prev == 0) &&
       !(o.sinks.length == a.prev.length + 1 && lastOpened o.sinks) then
     .fail "not-replaced" [V.ofNat idx, V.ofNat a.prev.length, V.ofNat o.sinks.length]
   else
@@ -155,7 +177,7 @@ def specSObs (a : SAcc) (idx : Nat) (op : SOp) (o : SObs) : Verdict :=
       else .ok
 
 def SAcc.after (a : SAcc) (op : SOp) (o : SObs) : SAcc :=
-  ⟨o.sinks, (pendAfter a op).filter (fun r => !(o.fwd.any (fun f => f.1 == r)))⟩
+  ⟨o.sinks, minus (pendAfter a op) (o.fwd.map (·.1))⟩
 
 def specSGo (a : SAcc) (idx : Nat) : List (SOp × SObs) → Verdict
   | [] => .ok
@@ -189,6 +211,10 @@ def decSOp : List V → Option SOp
   | [.a "ok", k] => do pure (.ok (← decId k))
   | [.a "fail", k] => do pure (.fail (← decId k))
   | [.a "fault", k] => do pure (.fault (← decId k))
+  | [.a "pcloseY"] => some .pcloseY
+  | [.a "pcloseR", r] => do pure (.pcloseR (← r.nat?))
+  | [.a "cresume", k] => do pure (.cresume (← decId k))
+  | [.a "cresumeR", k, r] => do pure (.cresumeR (← decId k) (← r.nat?))
   | _ => none
 
 def encView (x : SinkView) : V := .l [encSSt x.1, V.ofNat x.2.1, V.ofNat x.2.2]
